@@ -617,7 +617,12 @@ func (x *Exec) access(o *Object, path []Sel, write bool) {
 		var sb strings.Builder
 		for _, s := range path {
 			if s.Idx != nil {
-				sb.WriteString("[*]")
+				// small constant indices stay distinct (per-language slots of a table); large arrays are one location
+				if s.Idx.IsConst() && s.Idx.Val.IsInt64() && s.Idx.Int64() >= 0 && s.Idx.Int64() < 32 {
+					fmt.Fprintf(&sb, "[%d]", s.Idx.Int64())
+				} else {
+					sb.WriteString("[*]")
+				}
 			} else {
 				fmt.Fprintf(&sb, ".%d", s.Field)
 			}
@@ -743,7 +748,23 @@ func (x *Exec) loadPath(v Value, path []Sel) Value {
 		return x.loadPath(a.Elems[i], path[1:])
 	}
 	if len(path) > 1 {
-		panic(unsupported("symbolic index into array of aggregates"))
+		// element is an aggregate: fork over the feasible index values
+		k := x.concretize(s.Idx, "index into an array of aggregates")
+		if !k.IsInt64() || k.Int64() < 0 || int(k.Int64()) >= len(a.Elems) {
+			panic(pathEnd{"infeasible", "index out of range after obligation"})
+		}
+		return x.loadPath(a.Elems[k.Int64()], path[1:])
+	}
+	if len(a.Elems) > 0 {
+		switch a.Elems[0].(type) {
+		case *Term, string, *SymStr:
+		default:
+			k := x.concretize(s.Idx, "index into an array of non-scalar values")
+			if !k.IsInt64() || k.Int64() < 0 || int(k.Int64()) >= len(a.Elems) {
+				panic(pathEnd{"infeasible", "index out of range after obligation"})
+			}
+			return a.Elems[k.Int64()]
+		}
 	}
 	return x.selectElem(a.Elems, s.Idx)
 }
@@ -826,7 +847,12 @@ func (x *Exec) storePath(cur Value, path []Sel, v Value) Value {
 		return a
 	}
 	if len(path) > 1 {
-		panic(unsupported("symbolic index store into array of aggregates"))
+		k := x.concretize(s.Idx, "index of a store into an array of aggregates")
+		if !k.IsInt64() || k.Int64() < 0 || int(k.Int64()) >= len(a.Elems) {
+			panic(pathEnd{"infeasible", "index out of range after obligation"})
+		}
+		a.Elems[k.Int64()] = x.storePath(a.Elems[k.Int64()], path[1:], v)
+		return a
 	}
 	nv, ok := v.(*Term)
 	if !ok {
